@@ -121,6 +121,44 @@ theorem mul_nat_exact {p t : Dec} {n : Nat} (hs : p.scale ≤ 28) (hex : exactMu
 
 /-! ### parsed decimals have a scale of at most 28 -/
 
+theorem maybeRound_scale {m s : Nat} {c : Char} {point neg : Bool} {d : Dec}
+    (h : maybeRound m s c point neg = .ok d) : d.scale ≤ s := by
+  unfold maybeRound at h
+  cases hd : roundDigit c point with
+  | none => simp [hd] at h
+  | some dg =>
+    simp only [hd] at h
+    by_cases h1 : (if dg ≥ 5 then m + 1 else m) ≥ LIM
+    · simp only [h1, if_true] at h
+      by_cases hs : s = 0
+      · simp [hs] at h
+      · simp only [hs, if_false, Parsed.ok.injEq] at h
+        subst h; simp
+    · simp only [h1, if_false, Parsed.ok.injEq] at h
+      subst h; simp
+
+theorem maybeRound_mant {m s : Nat} {c : Char} {point neg : Bool} {d : Dec} (hm : m < LIM)
+    (h : maybeRound m s c point neg = .ok d) : d.mant < LIM := by
+  unfold maybeRound at h
+  cases hd : roundDigit c point with
+  | none => simp [hd] at h
+  | some dg =>
+    simp only [hd] at h
+    by_cases h1 : (if dg ≥ 5 then m + 1 else m) ≥ LIM
+    · simp only [h1, if_true] at h
+      by_cases hs : s = 0
+      · simp [hs] at h
+      · simp only [hs, if_false, Parsed.ok.injEq] at h
+        subst h
+        simp only
+        have : (if dg ≥ 5 then m + 1 else m) ≤ LIM := by split <;> omega
+        unfold LIM at *
+        omega
+    · simp only [h1, if_false, Parsed.ok.injEq] at h
+      subst h
+      simp only
+      omega
+
 theorem parseGo_scale : ∀ (cs : List Char) (m s : Nat) (point has neg : Bool) (d : Dec),
     (cs ≠ [] → s ≤ 27) → s ≤ 28 → parseGo cs m s point has neg = .ok d → d.scale ≤ 28 := by
   intro cs
@@ -138,24 +176,29 @@ theorem parseGo_scale : ∀ (cs : List Char) (m s : Nat) (point has neg : Bool) 
     by_cases hd : c.isDigit = true
     · simp only [hd, if_true] at h
       by_cases hov : m * 10 + (c.toNat - 48) ≥ LIM
-      · simp only [hov, if_true] at h; split at h <;> cases h
+      · simp only [hov, if_true] at h
+        by_cases hp : point = true
+        · simp only [hp, if_true] at h
+          have := maybeRound_scale h; omega
+        · simp [hp] at h
       · simp only [hov, if_false] at h
-        by_cases hu : (point && decide ((if point = true then s + 1 else 0) ≥ 28) && !rest.isEmpty) = true
-        · simp only [hu, if_true] at h; cases h
-        · simp only [hu] at h
-          refine ih _ _ _ _ _ _ ?_ ?_ h
-          · intro hne
+        have hs' : (if point = true then s + 1 else 0) ≤ 28 := by split <;> omega
+        cases rest with
+        | nil =>
+          simp only at h
+          exact ih _ _ _ _ _ _ (fun hne => absurd rfl hne) hs' h
+        | cons nxt tl =>
+          simp only at h
+          by_cases hu : (point && decide ((if point = true then s + 1 else 0) ≥ 28)) = true
+          · simp only [hu, if_true] at h
+            have := maybeRound_scale h; omega
+          · simp only [hu] at h
+            refine ih _ _ _ _ _ _ (fun _ => ?_) hs' h
             cases point with
             | false => simp
             | true =>
-              simp only [if_true]
-              simp only [Bool.true_and, Bool.and_eq_true, decide_eq_true_eq, Bool.not_eq_true',
-                List.isEmpty_eq_false_iff, not_and] at hu
-              have := hu
-              by_cases h28 : s + 1 ≥ 28
-              · exact absurd hne (this h28)
-              · omega
-          · cases point <;> simp <;> omega
+              simp only [Bool.true_and, decide_eq_true_eq, if_true] at hu ⊢
+              omega
     · simp only [hd] at h
       by_cases hdot : c = '.'
       · simp only [hdot, if_true] at h
@@ -205,12 +248,23 @@ theorem parseGo_mant : ∀ (cs : List Char) (m s : Nat) (point has neg : Bool) (
     by_cases hd : c.isDigit = true
     · simp only [hd, if_true] at h
       by_cases hov : m * 10 + (c.toNat - 48) ≥ LIM
-      · simp only [hov, if_true] at h; split at h <;> cases h
+      · simp only [hov, if_true] at h
+        by_cases hp : point = true
+        · simp only [hp, if_true] at h
+          exact maybeRound_mant hm h
+        · simp [hp] at h
       · simp only [hov, if_false] at h
-        by_cases hu : (point && decide ((if point = true then s + 1 else 0) ≥ 28) && !rest.isEmpty) = true
-        · simp only [hu, if_true] at h; cases h
-        · simp only [hu] at h
+        cases rest with
+        | nil =>
+          simp only at h
           exact ih _ _ _ _ _ _ (by omega) h
+        | cons nxt tl =>
+          simp only at h
+          by_cases hu : (point && decide ((if point = true then s + 1 else 0) ≥ 28)) = true
+          · simp only [hu, if_true] at h
+            exact maybeRound_mant (by omega) h
+          · simp only [hu] at h
+            exact ih _ _ _ _ _ _ (by omega) h
     · simp only [hd] at h
       by_cases hdot : c = '.'
       · simp only [hdot, if_true] at h
